@@ -119,7 +119,7 @@ def pbox_arrays(spec):
 def gen_cases(ctx):
     rng = ctx.rng
     cases = []
-    cap_cuts = ctx.scale(450, 9000)
+    cap_cuts = ctx.scale(450, 1600)
 
     def rand_input(kind):
         if kind == "I":
@@ -173,8 +173,8 @@ def gen_cases(ctx):
     # witness: a single draw of the gaussian copula (repaired: u_sample returned shape (d,))
     add("witness", [("D", "gaussian", (-0.25, 1.0)), ("D", "uniform", (1.25, 3.25))], ("mul", ("v", 0), ("sub", ("v", 1), ("c", 1))),
         ("endpoints", None, None), "imc", n_sam=1, seed=11, dep=("gaussian", 0.5))
-    n_s = ctx.scale(60, 1500)
-    n_i = ctx.scale(60, 1500)
+    n_s = ctx.scale(60, 350)
+    n_i = ctx.scale(60, 350)
     for which, count in (("slicing", n_s), ("imc", n_i)):
         made = 0
         tries = 0
